@@ -107,6 +107,36 @@ pub struct Script {
     pub fuse: bool,
     /// deliver planned HTLCs before answering outstanding RPCs
     pub deliver_first: bool,
+    /// C14: freeze hash `hidx` at its n-th call of `method` (or at its "timer"): that call and
+    /// everything else concerning the hash is withheld; HTLCs of other hashes are only
+    /// delivered once the hash is frozen.
+    pub freeze: Option<Freeze>,
+}
+
+#[derive(Clone, Debug)]
+pub struct Freeze {
+    pub hidx: usize,
+    pub method: &'static str,
+    pub nth: u64,
+    /// pay outcome used for the frozen hash itself
+    pub own_outcome: PayOutcome,
+    pub own_before: bool,
+}
+
+#[derive(Clone, Debug)]
+pub struct CallRec {
+    pub hidx: Option<usize>,
+    pub method: String,
+    pub params: String,
+    pub reply: String,
+}
+
+#[derive(Clone, Debug)]
+pub struct AnsRec {
+    pub htlc: usize,
+    pub hidx: Option<usize>,
+    pub json: String,
+    pub rel_ms: u64,
 }
 
 pub struct RunOpts {
@@ -132,6 +162,9 @@ pub struct RunResult {
     pub n_writes: u64,
     pub summary: String,
     pub lifetimes: u32,
+    pub call_log: Vec<CallRec>,
+    pub answers: Vec<AnsRec>,
+    pub hash_hex: Vec<String>,
 }
 
 enum End {
@@ -157,6 +190,7 @@ fn tracked(mgr: &Option<Arc<Mgr>>) -> Option<Option<usize>> {
 }
 
 pub fn run_one(opts: RunOpts) -> RunResult {
+    let opts_scripted = opts.script.is_some();
     let mut rng = Rng::new(opts.seed);
     let plan = match opts.plan_override {
         Some(f) => f(&mut rng),
@@ -339,6 +373,32 @@ pub fn run_one(opts: RunOpts) -> RunResult {
         n_writes,
         summary,
         lifetimes,
+        call_log: if opts_scripted {
+            w.calls
+                .iter()
+                .map(|c| CallRec {
+                    hidx: c.hidx,
+                    method: c.method.clone(),
+                    params: c.params.to_string(),
+                    reply: match &c.state {
+                        CallState::Done => c.reply_log.clone().unwrap_or_default(),
+                        s => format!("{s:?}").chars().take(40).collect(),
+                    },
+                })
+                .collect()
+        } else {
+            vec![]
+        },
+        answers: if opts_scripted {
+            w.htlcs
+                .iter()
+                .enumerate()
+                .filter_map(|(k, h)| h.answer.as_ref().map(|a| AnsRec { htlc: k, hidx: h.hidx, json: a.json.to_string(), rel_ms: a.at_ms.saturating_sub(h.delivered_ms) }))
+                .collect()
+        } else {
+            vec![]
+        },
+        hash_hex: w.hashes.iter().map(|h| h.hex.clone()).collect(),
     }
 }
 
@@ -549,6 +609,49 @@ fn canonical_choice(w: &World, steps: &[(Step, u64)], sc: &Script) -> Option<Ste
             }
         }
     }
+    // C14 freeze: withhold everything that concerns the frozen hash once it reached its point
+    let mut frozen_now = false;
+    let mut withheld_calls: Vec<u64> = vec![];
+    let mut frozen_hex = String::new();
+    if let Some(fz) = &sc.freeze {
+        frozen_hex = w.hashes[fz.hidx].hex.clone();
+        let mine: Vec<&Call> = w.calls.iter().filter(|c| c.hidx == Some(fz.hidx) && c.lifetime == w.lifetime).collect();
+        if fz.method == "timer" {
+            let read_done = mine.iter().any(|c| c.method == "listdatastore" && c.state == CallState::Done);
+            frozen_now = read_done && mine.iter().all(|c| c.state == CallState::Done);
+        } else {
+            let target: Option<&&Call> = mine.iter().filter(|c| c.method == fz.method).nth(fz.nth as usize);
+            if let Some(t) = target {
+                frozen_now = true;
+                withheld_calls = mine.iter().filter(|c| c.id >= t.id).map(|c| c.id).collect();
+            }
+        }
+    }
+    let is_withheld = |s: &Step| -> bool {
+        if !frozen_now {
+            return false;
+        }
+        match s {
+            Step::Apply(id, _) | Step::Reply(id) => withheld_calls.contains(id),
+            Step::Deliver(u) => sc.freeze.as_ref().map(|f| w.htlcs[*u].hidx == Some(f.hidx)).unwrap_or(false),
+            _ => false,
+        }
+    };
+    let steps: Vec<(Step, u64)> = steps
+        .iter()
+        .filter(|(s, _)| !is_withheld(s))
+        .filter(|(s, _)| {
+            // other hashes' HTLCs wait until the frozen hash has reached its point
+            if let (Some(fz), Step::Deliver(u)) = (&sc.freeze, s) {
+                if w.htlcs[*u].hidx != Some(fz.hidx) && !frozen_now {
+                    return false;
+                }
+            }
+            true
+        })
+        .cloned()
+        .collect();
+    let steps = &steps[..];
     let find = |f: &dyn Fn(&Step) -> bool| steps.iter().map(|(s, _)| s).find(|s| f(s)).cloned();
     let deliver = find(&|s| matches!(s, Step::Deliver(_)));
     if sc.deliver_first {
@@ -569,8 +672,18 @@ fn canonical_choice(w: &World, steps: &[(Step, u64)], sc: &Script) -> Option<Ste
     if let Some(d) = deliver {
         return Some(d);
     }
-    let (outcome, before, completes) = if w.cooperative { (PayOutcome::Complete, false, true) } else { (sc.pay_outcome.clone(), sc.finish_before_resolve, sc.part_completes) };
+    let (outcome0, before0, completes) = if w.cooperative { (PayOutcome::Complete, false, true) } else { (sc.pay_outcome.clone(), sc.finish_before_resolve, sc.part_completes) };
     for p in w.node.pays.iter().filter(|p| p.running) {
+        let (mut outcome, mut before) = (outcome0.clone(), before0);
+        if let Some(fz) = &sc.freeze {
+            if p.hash_hex == frozen_hex {
+                if frozen_now {
+                    continue;
+                }
+                outcome = fz.own_outcome.clone();
+                before = fz.own_before;
+            }
+        }
         if p.parts_created == 0 {
             return Some(Step::AddPart(p.id));
         }
@@ -589,7 +702,7 @@ fn canonical_choice(w: &World, steps: &[(Step, u64)], sc: &Script) -> Option<Ste
         };
         return Some(Step::FinishPay(p.id, out));
     }
-    if let Some(k) = w.node.parts.iter().position(|x| x.status == PartStatus::Pending) {
+    if let Some(k) = w.node.parts.iter().position(|x| x.status == PartStatus::Pending && !(sc.freeze.is_some() && x.hash_hex == frozen_hex)) {
         return Some(Step::ResolvePart(k, completes));
     }
     find(&|s| matches!(s, Step::Process(_)))
@@ -870,6 +983,10 @@ fn reply_call(shared: &Shared, id: u64) {
     if let CallState::Ready(r) = w.calls[idx].state.clone() {
         note_reply_delivered(&mut w, idx);
         w.ev(|| format!("REPLY #{id}"));
+        w.calls[idx].reply_log = Some(match &r {
+            Ok(v) => v.to_string(),
+            Err(e) => format!("ERR {:?} {}", e.code, e.message),
+        });
         if let Some(tx) = w.calls[idx].tx.take() {
             let _ = tx.send(r);
         }
